@@ -76,13 +76,6 @@ func inlinableHelper(pkg *packages.Package, fd *ast.FuncDecl) bool {
 			}
 		}
 	}
-	if fd.Type.Results != nil {
-		for _, f := range fd.Type.Results.List {
-			if len(f.Names) > 0 {
-				return false // named results
-			}
-		}
-	}
 	ok := true
 	ast.Inspect(fd.Body, func(n ast.Node) bool {
 		switch x := n.(type) {
